@@ -372,9 +372,10 @@ C07_Step ==
         /\ ~act'.halted /\ act'.invOk
         /\ \A d \in Denoms :
               /\ bal'[BurnAcct][d] = bal[BurnAcct][d] - Spend(BurnAcct, d)     \* spendable balance of the burn address is zero afterwards
-              /\ supply'[d] = supply[d] - Spend(BurnAcct, d)                     \* supply shrinks by exactly what was spendable there
+              \* supply shrinks by exactly what was spendable there, plus what reached the address inside this very EndBlock (governance spends)
+              /\ supply'[d] = supply[d] - Spend(BurnAcct, d) - Arrives(d)
               /\ \A a \in Tracked \ {BurnAcct} : bal'[a][d] = bal[a][d]          \* nobody else's balance changes
-              /\ rest'[d] = rest[d]
+              /\ rest'[d] = rest[d] - Arrives(d)
 
 \* the bank-wide accounting identity
 C07_Inv ==
